@@ -357,6 +357,45 @@ func c20Exec(tk *c20Task, sc *c20Script, st c20Step, shared [][]byte, annexb [][
 			h.Write([]byte(m.String()))
 		}
 		out = h.Sum(nil)[:8]
+	case "brands":
+		// compatible brands are added to the task's own ftyp / styp boxes (decoded ones and a freshly created one) and
+		// the boxes are written to the task's device: appending to what the decoder handed out must stay inside the task
+		if tk.f == nil {
+			return
+		}
+		add := [][]string{{"lmsg"}, {"cmfv", "dash"}, {"cmf2"}, {"iso9", "lmsg", "cmfs"}}[st.arg%4]
+		h := sha256.New()
+		enc := func(b mp4.Box) {
+			dev := &c20Dev{tk: tk}
+			err := b.Encode(dev)
+			fmt.Fprintf(h, "%d/%v/", b.Size(), err)
+			h.Write(dev.buf)
+		}
+		var ftyps []*mp4.FtypBox
+		if tk.f.Ftyp != nil {
+			ftyps = append(ftyps, tk.f.Ftyp)
+		}
+		if tk.f.Init != nil && tk.f.Init.Ftyp != nil && tk.f.Init.Ftyp != tk.f.Ftyp {
+			ftyps = append(ftyps, tk.f.Init.Ftyp)
+		}
+		for _, ft := range ftyps {
+			ft.AddCompatibleBrands(add)
+			enc(ft)
+		}
+		for _, sg := range tk.f.Segments {
+			if sg.Styp != nil {
+				sg.Styp.AddCompatibleBrands(add)
+				enc(sg.Styp)
+			}
+		}
+		fresh := mp4.CreateStyp()
+		fresh.AddCompatibleBrands(add)
+		enc(fresh)
+		seg := mp4.NewMediaSegment()
+		if seg.Styp != nil {
+			fmt.Fprintf(h, "%v", seg.Styp.CompatibleBrands())
+		}
+		out = h.Sum(nil)[:8]
 	case "fault":
 		// a stream that ends inside a box header or body: the decode must fail the same way for everyone
 		var x []byte
@@ -600,9 +639,13 @@ func c20DrawScript(t *sim.Tape, nInputs int, ins []c20Input) c20Script {
 				sc.steps = append(sc.steps, c20Step{"info", t.Draw(3)})
 			}
 		case 11:
-			switch t.Draw(3) {
+			switch t.Draw(4) {
 			case 0:
 				sc.steps = append(sc.steps, c20Step{"fault", t.Draw(20)})
+			case 3:
+				if !lazy {
+					sc.steps = append(sc.steps, c20Step{"brands", t.Draw(4)})
+				}
 			case 1:
 				sc.steps = append(sc.steps, c20Step{"seiWrite", t.Draw(64)})
 			default:
